@@ -37,11 +37,6 @@ class LiquidKey:
     def __repr__(self) -> str:
         return f"LiquidKey({self.v!r})"
 
-    def __eq__(self, other) -> bool:
-        return isinstance(other, LiquidKey) and other.v == self.v or other == self.v
-
-    def __hash__(self) -> int:
-        return hash(self.v)
 
 
 def _make_exc(kind: str, msg: str) -> BaseException:
